@@ -395,6 +395,10 @@ fn exec(sc: &Scenario, ctx: &mut Ctx) -> Vec<Violation> {
     let slack = 1024 * 1024 + (events as usize) * 160;
     let bound = table + 8 * (input.len() + produced) + slack;
     ctx.stats.max("max_heap_peak_bytes", peak as u64);
+    ctx.stats.max(
+        "max_heap_excess_over_table_plus_8x_io_bytes",
+        peak.saturating_sub(table + 8 * (input.len() + produced)) as u64,
+    );
     ctx.stats.max("max_heap_peak_per_mille_of_bound", (peak as u64 * 1000) / bound as u64);
     if peak > bound {
         return vec![Violation::new(
